@@ -85,6 +85,8 @@ pub struct Layout {
     pub upper_exp: bool,
     /// write "5." / ".5" forms when a side is empty instead of adding a "0"
     pub bare_point: bool,
+    /// write letter digits in lower case
+    pub lower_digits: bool,
 }
 
 pub fn layout() -> BoxedStrategy<Layout> {
@@ -97,9 +99,9 @@ pub fn layout() -> BoxedStrategy<Layout> {
         any::<bool>(),
         prop_oneof![4 => Just(false), 1 => Just(true)],
         any::<bool>(),
-        any::<bool>(),
+        (any::<bool>(), prop_oneof![3 => Just(false), 1 => Just(true)]),
     )
-        .prop_map(|(point, style, lead_zeros, trail_zeros, exp_lead_zeros, exp_plus, plus, upper_exp, bare_point)| Layout {
+        .prop_map(|(point, style, lead_zeros, trail_zeros, exp_lead_zeros, exp_plus, plus, upper_exp, (bare_point, lower_digits))| Layout {
             point,
             style,
             lead_zeros,
@@ -109,6 +111,7 @@ pub fn layout() -> BoxedStrategy<Layout> {
             plus,
             upper_exp,
             bare_point,
+            lower_digits,
         })
         .boxed()
 }
@@ -194,6 +197,13 @@ pub fn render_canon(c: &Canon, rx: Radices, point: u8, exp_char: u8, l: &Layout)
         }
         if frac.is_empty() && l.trail_zeros == 0 && !l.bare_point {
             out.push(b'0');
+        }
+    }
+    if l.lower_digits {
+        for b in out.iter_mut() {
+            if b.is_ascii_uppercase() && *b != point {
+                *b = b.to_ascii_lowercase();
+            }
         }
     }
     if e != 0 || l.style == 1 || l.style == 2 {
